@@ -193,11 +193,32 @@ type setupRow struct {
 // and the event bits set — directly, through a local closure, or into a local mask that is OR-ed into
 // stub.events unconditionally at the top level of the function.  ok = false: something that touches the mask
 // was not understood.
-func setupRows(fd *ast.FuncDecl, evNum func(ast.Expr) (int64, bool)) (rows []setupRow, ok bool) {
+func setupRows(fd *ast.FuncDecl, methods map[string]*ast.FuncDecl, evNum func(ast.Expr) (int64, bool)) (rows []setupRow, ok bool) {
 	ok = true
 	closures := map[string]*ast.FuncLit{}
 	masks := map[string]bool{"stub.events": true}
-	for _, st := range fd.Body.List {
+	// phases: a top-level call  stub.helper()  of an unexported method without parameters and results is
+	// replaced by the helper's statements (two levels)
+	var flatten func(list []ast.Stmt, d int) []ast.Stmt
+	flatten = func(list []ast.Stmt, d int) []ast.Stmt {
+		var out []ast.Stmt
+		for _, st := range list {
+			if es, isEs := st.(*ast.ExprStmt); isEs && d > 0 {
+				if ce, isCall := es.X.(*ast.CallExpr); isCall && len(ce.Args) == 0 {
+					name := strings.TrimPrefix(sel(ce.Fun), "stub.")
+					if h, isHelper := methods[name]; isHelper && name != sel(ce.Fun) && unexported(name) && name != fd.Name.Name &&
+						(h.Type.Params == nil || len(h.Type.Params.List) == 0) && (h.Type.Results == nil || len(h.Type.Results.List) == 0) {
+						out = append(out, flatten(h.Body.List, d-1)...)
+						continue
+					}
+				}
+			}
+			out = append(out, st)
+		}
+		return out
+	}
+	body := flatten(fd.Body.List, 2)
+	for _, st := range body {
 		as, isAs := st.(*ast.AssignStmt)
 		if !isAs || len(as.Lhs) != 1 || len(as.Rhs) != 1 {
 			continue
@@ -251,7 +272,7 @@ func setupRows(fd *ast.FuncDecl, evNum func(ast.Expr) (int64, bool)) (rows []set
 		}
 		return out
 	}
-	for _, st := range fd.Body.List {
+	for _, st := range body {
 		is, isIf := st.(*ast.IfStmt)
 		if !isIf || is.Init == nil {
 			// top level: declarations, the closures, the final OR into stub.events and the "no handler at all"
